@@ -878,7 +878,15 @@ Proof.
   intros fixed h0 inp out H. destruct (sidecar_output_sorted _ _ _ _ _ H) as [S | [E _]]; [assumption | discriminate].
 Qed.
 
-(* the early return of the code as it is hands back column "b" before column "a" *)
+(* the code as it is in /repo (sort_early = code_sorts_early, fix commit 8c0dae9): always sorted.
+   Flipping the switch makes this proof fail. *)
+Lemma sidecar_output_sorted_current : forall fixed h0 inp out,
+  sidecar_validate fixed code_sorts_early h0 inp = Ok out ->
+  StronglySorted (fun a b => issue_leb false a b = true) out.
+Proof. exact sidecar_output_sorted_fixed. Qed.
+
+(* record of the repaired defect C12-F2 (behaviour before fix commit 8c0dae9, sort_early = false):
+   the early return handed back column "b" before column "a" *)
 Definition k_blank : str := [98;108;97;110;107;86;97;108;117;101;83;116;114;105;110;103]%N.
 Definition ws_input : sc_input :=
   {| si_name := Some (VStr [115]%N);
@@ -888,7 +896,7 @@ Definition ws_input : sc_input :=
 
 Lemma sidecar_early_return_unsorted_refuted :
   exists out, sidecar_validate true false wt_handler ws_input = Ok out /\
-    map (key_at CSidecarCol) out = [KS [98]%N; KS [97]%N] /\
+    map (key_at CSidecarCol) out = [KT0 [98]%N; KT0 [97]%N] /\
     ~ StronglySorted (fun a b => issue_leb false a b = true) out.
 Proof.
   eexists. split; [vm_compute; reflexivity|]. split; [vm_compute; reflexivity|].
@@ -1372,7 +1380,7 @@ Definition wb_input : sc_input :=
 
 Example sidecar_badspot_sorted_into_place :
   exists out, sidecar_validate true true wt_handler wb_input = Ok out /\
-    map (key_at CSidecarCol) out = [KS [98;99;111;108]%N; KS [99;99;111;108]%N] /\
+    map (key_at CSidecarCol) out = [KT0 [98;99;111;108]%N; KT0 [99;99;111;108]%N] /\
     StronglySorted (fun a b => issue_leb false a b = true) out.
 Proof.
   destruct (sidecar_validate true true wt_handler wb_input) as [out|] eqn:E; [|vm_compute in E; discriminate].
